@@ -60,6 +60,9 @@ func zzShape(k int) zzGraph {
 		p0.Group, p1.Group = g, g
 		c0 := zzTask("c0", TaskDep{Head: p0, Partition: 0})
 		return zzGraph{[]*Task{a0, a1, p0, p1, c0}, []*Task{c0}}
+	case 8: // two independent tasks
+		t, x := zzTask("t"), zzTask("x")
+		return zzGraph{[]*Task{t, x}, []*Task{t, x}}
 	case 5: // single task
 		a := zzTask("a")
 		return zzGraph{[]*Task{a}, []*Task{a}}
